@@ -75,7 +75,8 @@ for _c in CMP:
 DISCONTINUOUS = set(CMP) | {"floor_divide", "remainder", "fmod", "divmod", "copysign", "sign"}
 TERMINAL = set(CMP) | {"divmod"}
 POWERS = [2, 3, -1, -2, 0.5, 1.5, -0.5, 2.0, 1.0 / 3.0, 0, 1, 4, 0.25]
-PKINDS = ["int", "float", "npfloat", "arr0", "qdimless", "arrsame"]
+PKINDS = ["int", "float", "npfloat", "arr0", "qdimless", "arrsame"]       # how the exponent is handed over (random programs)
+PKINDS_MATRIX = PKINDS + ["qscaled"]     # + a dimensionless quantity written in a scaled unit (50 percent / p*2**-12 D4096): matrix only
 
 # ------------------------------------------------------------------------------------------------ pools
 ANGLE = dims.D("A")
@@ -165,7 +166,7 @@ class RealPool:
             e = dim[_IDX[letter]]
             if e == 0:
                 continue
-            (num if e > 0 else den).append(dyadic._fmt_pow(pick(letter), abs(e)))
+            (num if e > 0 else den).append(dyadic.fmt_pow(pick(letter), abs(e)))
         if not num and not den:
             return "dimensionless"
         s = "*".join(num) if num else "1"
@@ -241,13 +242,19 @@ class Gen:
         self.ops = ops or list(CATALOGUE)
 
     # -- leaves
-    def leaf(self, dim=None, shape=None, bare=None, positive=False, reg=None, units=None):
+    def leaf(self, dim=None, shape=None, bare=None, positive=False, reg=None, units=None, dtype=None):
+        """dtype (None = float64; "f4", "i8", "c16") is only used by the enumerated single-variant matrix"""
         r = self.rnd
         if shape is None:
             shape = r.choice(SHAPES)
         if bare is None:
             bare = (dim is None or dim == dims.ZERO) and r.random() < (0.08 if dim is None else 0.35)
         vals = _values(r, shape, positive)
+        imag = None
+        if dtype == "i8":
+            vals = [float(int(v) if v == int(v) else int(v * 4)) for v in vals]
+        if dtype == "c16":
+            imag = _values(r, shape, False)
         if bare:
             node = {"op": "leaf", "kind": "bare", "shape": list(shape), "vals": vals, "reg": None, "units": None}
             v = siinterp.leaf(np.array(vals).reshape(shape), 1.0, dims.ZERO)
@@ -259,7 +266,13 @@ class Gen:
             s, d = self.pool.ref(units[0], reg)
             assert d == dim, (units, d, dim)
             node = {"op": "leaf", "kind": "q", "shape": list(shape), "vals": vals, "reg": reg, "units": units}
-            v = siinterp.leaf(np.array(vals).reshape(shape), s, dim, 0.0 if self.pool.exact else 3 * siinterp.EPS)
+            arr = np.array(vals).reshape(shape)
+            if dtype:
+                node["dtype"] = dtype
+            if imag is not None:
+                node["imag"] = imag
+                arr = arr + 1j * np.array(imag).reshape(shape)
+            v = siinterp.leaf(arr, s, dim, 0.0 if self.pool.exact else 3 * siinterp.EPS)
         return self._push(node, v, 0)
 
     def _push(self, node, val, depth):
@@ -525,17 +538,18 @@ def ref_eval(I, node, vals):
     raise siinterp.RefError(op)
 
 
-def single_op_program(rnd, pool, op, form, operands, extra=None):
+def single_op_program(rnd, pool, op, form, operands, extra=None, dtypes=None):
     """depth-1 program for the enumerated matrix: op(form) on leaves; operands = [(unit expr or None for a bare number,
     shape, registry tag), ...] in argument order"""
     g = Gen(rnd, pool, 1)
     cat = CATALOGUE[op][0]
     ids = []
-    for (u, shp, reg) in operands:
+    for k, (u, shp, reg) in enumerate(operands):
         if u is None:
             ids.append(g.leaf(dim=dims.ZERO, shape=tuple(shp), bare=True, positive=True))
         else:
-            ids.append(g.leaf(dim=pool.ref(u, reg)[1], shape=tuple(shp), bare=False, reg=reg, units=[u], positive=(op in ("sqrt",))))
+            ids.append(g.leaf(dim=pool.ref(u, reg)[1], shape=tuple(shp), bare=False, reg=reg, units=[u], positive=(op in ("sqrt",)),
+                              dtype=(dtypes[k] if dtypes and dtypes[k] != "f8" else None)))
     a = ids[0]
     node = {"op": op, "form": form}
     I = g.I
@@ -566,7 +580,7 @@ def single_op_program(rnd, pool, op, form, operands, extra=None):
             node.update(args=[a], axis=list(axis) if isinstance(axis, tuple) else axis)
         else:
             return None
-    except (siinterp.RefError, ValueError, IndexError):
+    except (siinterp.RefError, ValueError, IndexError, TypeError):
         return None
     if not _in_range(val):
         return None
